@@ -267,6 +267,7 @@ def build_tasks(tier):
         push(desc, data)
     if batch:
         tasks.append((task_batch, list(batch)))
+    tasks.append((task_size_limit, None))
     # unstructured tails: 16-byte fixed header with a fields-array length of L, then every string over the alphabet
     alpha = bytes([0, 1, 8, ord('s'), ord('g'), ord('o')])
     L = 7 if tier == 'quick' else 8
@@ -283,6 +284,44 @@ def build_tasks(tier):
             for n in ((1 << 26) - 8, 1 << 26, (1 << 26) + 8, (1 << 26) - 4):
                 tasks.append((task_big, ('at-%d-%s' % (n, e), n, e, b't')))
     return tasks, nvalid, ncore
+
+
+def task_size_limit(_):
+    """The maximum message length is the one limit that cannot be reached with small inputs at its protocol value (2^27).  It is
+    the same comparison for every value of the limit, so it is exercised with a loader whose limit is set a few bytes around
+    the total length (padded header + body) of each message: every residue of the header length mod 8, both byte orders,
+    with and without a body.  A message is produced exactly when its total length does not exceed the limit."""
+    h = worker_harness('vbox')
+    out, hits = [], {}
+    n = 0
+    for e in 'lB':
+        for k in range(1, 9):            # member length moves the end of the header-fields array through every residue
+            for body in ([], [(b's', b'x' * 11)], [(b'ay', [(b'y', 7)] * 5)]):
+                m = R.Msg(R.MT_CALL, 0, 1, [(R.F_PATH, (b'o', b'/a')), (R.F_MEMBER, (b's', b'M' * k))], body, e)
+                data = R.encode_message(m)
+                total = len(data)
+                for delta in range(-9, 3):
+                    case = {'desc': 'size-limit', 'data': data.hex(), 'max': total + delta}
+                    try:
+                        r = h.cmd('LOADMAX %d %s' % (total + delta, data.hex()))
+                    except HarnessDied as ex:
+                        out.append(crash_violation(ex, case))
+                        continue
+                    kv = parse_kv(r)
+                    n += 1
+                    got = kv.get('msg') == '1'
+                    want = delta >= 0
+                    hits['reason:size-limit-' + ('ok' if want else 'too-long')] = hits.get('reason:size-limit-' + ('ok' if want else 'too-long'), 0) + 1
+                    if got != want:
+                        out.append(Violation('accepted-but-invalid' if got else 'rejected-but-valid', 'message.too-long' if got else 'size-limit',
+                                             'a %d-byte message (header fields array ends %d bytes before its padding boundary) with the maximum message length set to %d was %s' %
+                                             (total, (8 - (16 + len(data) - total) % 8) % 8, total + delta, 'accepted' if got else 'rejected'), case))
+                    elif not want and kv.get('corrupt') != '1':
+                        out.append(Violation('accepted-but-invalid', 'message.too-long-not-corrupt', 'an over-long message did not mark the stream corrupt', case))
+    byfp = {}
+    for v in out:
+        byfp.setdefault(v.fingerprint, []).append(v)
+    return {'viol': [v.to_json() for vs in byfp.values() for v in vs[:3]], 'counts': {k_: len(v) for k_, v in byfp.items()}, 'n': n, 'hits': hits}
 
 
 def task_tail_padded(t):
@@ -348,6 +387,8 @@ def replay(case):
         n, e, el = case['big']
         r = task_big((case['desc'], n, e, el.encode()))
         return [Violation.from_json(v) for v in r['viol']]
+    if case.get('desc') == 'size-limit':
+        return [Violation.from_json(v) for v in task_size_limit(None)['viol']]
     if 'bytes' not in case:
         return []
     with Harness('vbox', timeout=120) as h:
